@@ -100,18 +100,29 @@ def per_file_offset_rule(index, rep, rid):
         loop = loops[0]
         guards = []
         for iff in ast.walk(loop):
-            if isinstance(iff, ast.If) and any(isinstance(c, ast.Call) and call_name(c) == "add_tree" for st in iff.body for c in ast.walk(st)):
-                cp = compare_parts(iff.test)
-                if cp and cp[1] in ("GtE", "Gt") and isinstance(cp[0], ast.Name):
-                    guards.append((iff, cp[0].id))
+            if not isinstance(iff, ast.If):
+                continue
+            t_, tb_, fb_ = pos_if(iff)
+            cp = compare_parts(t_)
+            if not (cp and isinstance(cp[0], ast.Name)):
+                continue
+            adds_t = any(isinstance(c, ast.Call) and call_name(c) == "add_tree" for st in tb_ for c in ast.walk(st))
+            adds_f = any(isinstance(c, ast.Call) and call_name(c) == "add_tree" for st in fb_ for c in ast.walk(st))
+            if (adds_t and cp[1] in ("GtE", "Gt")) or (adds_f and cp[1] in ("Lt", "LtE")):
+                guards.append((iff, cp[0].id))
         if not guards:
             raise AnalysisError("%s: %s: the burn-in comparison guarding add_tree was not recognised" % (rid, q))
         fileidx = {a.targets[0].id for a in ast.walk(loop) if isinstance(a, ast.Assign) and isinstance(a.targets[0], ast.Name) and norm(a.value).endswith(".current_file_index")}
         for iff, x in guards:
             n += 1
             loop_targets = {t.id for t in ast.walk(loop.target) if isinstance(t, ast.Name)}
-            resets = [a for i2 in ast.walk(loop) if isinstance(i2, ast.If) and names_in(i2.test) & fileidx for st in i2.body for a in ast.walk(st)
-                      if isinstance(a, ast.Assign) and norm(a.targets[0]) == x and const_value(a.value, None) == 0]
+            resets = []
+            for i2 in ast.walk(loop):
+                if isinstance(i2, ast.If) and names_in(i2.test) & fileidx:
+                    t2, tb2, fb2 = pos_if(i2)
+                    cp2 = compare_parts(t2)
+                    changed = tb2 if (cp2 and cp2[1] in ("NotEq", "IsNot")) else (fb2 if (cp2 and cp2[1] in ("Eq", "Is")) else [])
+                    resets += [a for st in changed for a in ast.walk(st) if isinstance(a, ast.Assign) and norm(a.targets[0]) == x and const_value(a.value, None) == 0]
             incs = [a for a in ast.walk(loop) if isinstance(a, ast.AugAssign) and norm(a.target) == x and isinstance(a.op, ast.Add) and const_value(a.value, None) == 1]
             ok = x not in loop_targets and bool(resets) and len(incs) == 1
             why = "it is the loop's running index over all files" if x in loop_targets else ("it is not reset when the current file changes" if not resets else "it is not advanced exactly once per tree")
